@@ -306,9 +306,10 @@ class Cfg:
     tol: float = 1e-3
     t1: float = 1.0
     container: str = "list"  # list | tuple | namedtuple  (Taylor-coefficient container)
+    est: str = "residual"  # residual | state | state1  (error estimator of the adaptive runs; state1: derivative_idx = 1, per unit step)
 
     def key(self):
-        return f"{self.fact}-{self.strategy}-{self.mode}-{self.lin}-{self.calib}-q{self.q}"
+        return f"{self.fact}-{self.strategy}-{self.mode}-{self.lin}-{self.calib}-q{self.q}" + ("" if self.est == "residual" else f"-{self.est}")
 
 
 class Taylor3(collections.namedtuple("Taylor3", ["state", "velocity", "acceleration"])):
@@ -366,7 +367,12 @@ def make_solve(cfg: Cfg, spec=None):
         solver = {"solver": pdq.solver, "mle": pdq.solver_mle, "dynamic": pdq.solver_dynamic}[cfg.calib](strategy=strategy, constraint=constraint)
         if cfg.mode == "fixed":
             return ivpsolve.solve_fixed_grid(solver=solver)(prior, grid=jnp.asarray(grid) * ctl[1])
-        error = pdq.error_residual_std(constraint=constraint)
+        if cfg.est == "residual":
+            error = pdq.error_residual_std(constraint=constraint)
+        elif cfg.est == "state":
+            error = pdq.error_state_std(constraint=constraint)
+        else:
+            error = pdq.error_state_std(constraint=constraint, derivative_idx=1, error_per_unit_step=True)
         sol = ivpsolve.solve_adaptive_save_at(solver=solver, error=error)
         return sol(prior, save_at=jnp.asarray(grid) * ctl[1], atol=cfg.tol * 1e-1 * ctl[0], rtol=cfg.tol * ctl[0], dt0=ctl[2])
 
